@@ -21,8 +21,10 @@ type simNode struct {
 	role      string // honest | lagging | forked | staller | disconnector | forbidden | contra
 	ip        net.IP
 	best      *MHeader
-	cap       int  // max headers per reply
+	cap       int    // max headers per reply
 	announce  string // inv | headers
+	invTrail  int    // how many ancestors an inv announcement lists before the new block
+	invTx     bool   // inv announcements end with a transaction entry
 	skew      time.Duration
 	silentAt  int // goes silent after having received this many messages (-1 never)
 	closeAt   int // closes after this many messages (-1 never)
@@ -39,28 +41,28 @@ type recvMsg struct {
 }
 
 type nodeConn struct {
-	id        int
-	node      *simNode
-	nodeEnd   *simConn
-	svcEnd    *simConn
-	inbuf     []byte
-	inbound   bool // inbound from the service's point of view (the node dialled)
-	gotVer    bool
-	gotVerack bool
-	sentVer   bool
-	msgsIn    int
-	silent    bool
-	partitioned bool // bytes queue in both directions but the scheduler does not deliver them
-	closed    bool // closed by the node
-	dead      bool // observed closed by the service
-	recv      []recvMsg
-	getHdrs   []*wire.MsgGetHeaders // every getheaders the service sent on this connection
-	hdrReplies []*wire.MsgHeaders   // headers messages the service sent (answers to the node's getheaders)
-	openedAt  int
+	id                int
+	node              *simNode
+	nodeEnd           *simConn
+	svcEnd            *simConn
+	inbuf             []byte
+	inbound           bool // inbound from the service's point of view (the node dialled)
+	gotVer            bool
+	gotVerack         bool
+	sentVer           bool
+	msgsIn            int
+	silent            bool
+	partitioned       bool // bytes queue in both directions but the scheduler does not deliver them
+	closed            bool // closed by the node
+	dead              bool // observed closed by the service
+	recv              []recvMsg
+	getHdrs           []*wire.MsgGetHeaders // every getheaders the service sent on this connection
+	hdrReplies        []*wire.MsgHeaders    // headers messages the service sent (answers to the node's getheaders)
+	openedAt          int
 	handshakeDoneStep int
-	wantsHeaders bool
-	deferred []wire.Message
-	known *MHeader // highest header of the node's chain the service is known to have (per connection)
+	wantsHeaders      bool
+	deferred          []wire.Message
+	known             *MHeader // highest header of the node's chain the service is known to have (per connection)
 	connFlags
 }
 
@@ -94,6 +96,14 @@ func (c *nodeConn) send(msg wire.Message) {
 		Infra("scripted node cannot encode %s: %v", msg.Command(), err)
 	}
 	_, _ = c.nodeEnd.Write(buf.Bytes())
+	if c.misbehaved != "" && !c.misDelivered && c.misEnd == 0 {
+		c.misEnd = c.nodeEnd.Written() // the offending message ends here in this connection's byte stream
+	}
+	// One message per delivery: when a segment carries two messages, the service's reader goroutine works on the
+	// second while its sync manager still reacts to the first (it may hang up, or send a request whose stall
+	// deadline the second message clears or not); which of them wins is decided inside the service, not by the
+	// simulator. Coalesced segments are left to the race class (co-scheduled steps) and to the wire engine.
+	c.nodeEnd.MarkStop()
 }
 
 func (c *nodeConn) sendVersion(now time.Time) {
@@ -173,5 +183,7 @@ type connFlags struct {
 	admittedLive     bool
 	misbehaved       string // forbidden | contra : the reply carrying it has been queued
 	misDelivered     bool
+	nGhChecked       int // getheaders of the service seen on this connection
+	misEnd           int // offset (bytes written by the node) at which the offending message ends
 	ghAtMis          int
 }
